@@ -81,46 +81,38 @@ def followResponse (ty : String) (me : Iri) (follow : J) (actorIds : List Iri) :
   let r := r.set "object" follow
   setList r "to" (mkIdList actorIds)
 
+/-- is this inbox's actor among the objects of the Follow?  (looked at only when a response is configured) -/
+def followIsMe (F : TFacts) (cfg : CbConfig) (op : List J) (actorIRI : Iri) : Prog Bool :=
+  if cfg.onFollow == 0 then pure false else do
+    let me ← strOf "follow: actorIRI.String() on nil" actorIRI
+    findMe F "follow: id.String() on nil" op me
+
+def followResponseType (cfg : CbConfig) : Prog String :=
+  if cfg.onFollow == 1 then pure "Accept" else if cfg.onFollow == 2 then pure "Reject" else Prog.fail .lib
+
+/-- auto-accept: the following actors go in front of the followers collection (PrependIRI one by one) -/
+def followUpdateFollowers (actorIRI : Iri) (recipients : List Iri) : Prog Unit :=
+  Op.locked actorIRI (do
+    let followers ← Op.followers actorIRI
+    Op.update (setList followers "items" (mkIdList recipients.reverse ++ (rawList followers "items").getD [])))
+
+def followRespond (F : TFacts) (cfg : CbConfig) (box : Iri) (a : J) (actorIRI : Iri)
+    (addNewIds : J → Prog J) (deliver : Iri → J → Prog Unit) : Prog Unit := do
+  let ty ← followResponseType cfg
+  let followActors ← needList "follow: followActors.Begin() on nil actor property" (prop F a "actor")
+  let recipients ← idsM F followActors
+  let recipients ← strsOf "follow: AppendIRI(nil)" recipients
+  (if cfg.onFollow == 1 then followUpdateFollowers actorIRI recipients else pure ())
+  let outboxIRI ← Op.locked box (Op.outboxForInbox box)
+  let response ← addNewIds (followResponse ty actorIRI a recipients)
+  deliver outboxIRI response
+
 def fedFollow (F : TFacts) (cfg : CbConfig) (box : Iri) (a : J)
     (addNewIds : J → Prog J) (deliver : Iri → J → Prog Unit) : Prog Unit := do
   let op ← requireObject F a
-  Op.lock box
-  let r ← Prog.try_ (Op.actorForInbox box)
-  Op.unlock box
-  match r with
-  | .error e => Prog.fail e
-  | .ok actorIRI =>
-  let isMe ← if cfg.onFollow == 0 then pure false else do
-      let me ← strOf "follow: actorIRI.String() on nil" actorIRI
-      findMe F "follow: id.String() on nil" op me
-  if isMe then do
-    let ty ← if cfg.onFollow == 1 then pure "Accept" else if cfg.onFollow == 2 then pure "Reject" else Prog.fail .lib
-    let followActors ← match prop F a "actor" with
-      | none => Prog.panic "follow: followActors.Begin() on nil actor property"
-      | some xs => pure xs
-    let recipients ← idsM F followActors
-    let recipients ← strsOf "follow: AppendIRI(nil)" recipients
-    let response := followResponse ty actorIRI a recipients
-    if cfg.onFollow == 1 then do
-      Op.lock actorIRI
-      let r ← Prog.try_ (do
-        let followers ← Op.followers actorIRI
-        -- PrependIRI one by one: the actors end up in reverse order in front of the old items
-        let items := (rawList followers "items").getD []
-        Op.update (setList followers "items" (mkIdList recipients.reverse ++ items)))
-      Op.unlock actorIRI
-      match r with
-      | .error e => Prog.fail e
-      | .ok _ => pure ()
-    -- "Lock without defer!": the result of this Lock is not looked at
-    Op.lockIgnoring box
-    let r ← Prog.try_ (Op.outboxForInbox box)
-    Op.unlock box
-    match r with
-    | .error e => Prog.fail e
-    | .ok outboxIRI =>
-      let response ← addNewIds response
-      deliver outboxIRI response
+  let actorIRI ← Op.locked box (Op.actorForInbox box)
+  let isMe ← followIsMe F cfg op actorIRI
+  (if isMe then followRespond F cfg box a actorIRI addNewIds deliver else pure ())
   wrappedAfter true cfg "Follow" a
 
 /-- ids of a non-nil actor/object property of a (re-)read Follow, panicking where the code calls `.Begin()` on nil -/
@@ -129,58 +121,61 @@ def needProp (F : TFacts) (site : String) (v : J) (p : String) : Prog (List J) :
   | none => .panic site
   | some xs => .ret xs
 
-def fedAccept (F : TFacts) (cfg : CbConfig) (box : Iri) (a : J) : Prog Unit := do
-  match prop F a "object" with
-  | none => pure ()
-  | some [] => pure ()
-  | some op =>
-    Op.lock box
-    let r ← Prog.try_ (Op.actorForInbox box)
-    Op.unlock box
-    match r with
-    | .error e => Prog.fail e
-    | .ok actorIRI =>
-    -- find the first Follow among the objects that names this actor
-    let maybe ← op.foldlM (fun (found : Option Iri) j => do
-        if found.isSome then pure found else
-        let t ← valueOrFetch F box j
-        if !F.isOrExt "Follow" (typeName t) then pure none else
+/-- the first Follow among the Accept's objects that names this actor: its id -/
+def acceptFindFollow (F : TFacts) (box : Iri) (op : List J) (actorIRI : Iri) : Prog (Option Iri) :=
+  op.foldlM (fun (found : Option Iri) j =>
+    if found.isSome then pure found else do
+      let t ← valueOrFetch F box j
+      if !F.isOrExt "Follow" (typeName t) then pure none else do
         let followId ← liftLib (getId F t)
         let actors ← needProp F "accept: actors.Begin() on nil actor property of the Follow" t "actor"
-        let me ← if actors.isEmpty then pure actorIRI else strOf "accept: actorIRI.String() on nil" actorIRI
+        let me ← (if actors.isEmpty then pure actorIRI else strOf "accept: actorIRI.String() on nil" actorIRI)
         let hit ← findMe F "accept: id.String() on nil" actors me
         pure (if hit && followId != nilIri then some followId else none)) none
-    match maybe with
-    | none => pure ()
-    | some followIRI =>
-      let activityActors ← match prop F a "actor" with
-        | none => Prog.fail .lib
-        | some [] => Prog.fail .lib
-        | some xs => pure xs
-      withLock followIRI (do
-        let t ← Op.get followIRI
-        let t ← needVal "accept: IsOrExtends on nil value" t
-        if !F.isOrExt "Follow" (typeName t) then Prog.fail .lib else
-        let actors ← needProp F "accept: actors.Begin() on nil actor property of the stored Follow" t "actor"
-        let me ← if actors.isEmpty then pure actorIRI else strOf "accept: actorIRI.String() on nil" actorIRI
-        let ok ← findMe F "accept: id.String() on nil" actors me
-        if !ok then Prog.fail .lib else
-        let acceptIds ← idsM F activityActors
-        let acceptIds ← strsOf "accept: id.String() on nil" acceptIds
-        let followObj ← needProp F "accept: followObj.Begin() on nil object property of the stored Follow" t "object"
-        let objIds ← idsM F followObj
-        let objIds ← strsOf "accept: id.String() on nil" objIds
-        if acceptIds.all objIds.contains then pure () else Prog.fail .lib)
-      Op.lock actorIRI
-      let r ← Prog.try_ (do
-        let following ← Op.following actorIRI
-        let ids ← idsM F activityActors
-        let items := (rawList following "items").getD []
-        Op.update (setList following "items" ((ids.map iriJ).reverse ++ items)))
-      Op.unlock actorIRI
-      match r with
-      | .error e => Prog.fail e
-      | .ok _ => pure ()
+
+/-- verify against the Follow stored locally under that id (run under its lock) -/
+def acceptVerifyStored (F : TFacts) (followIRI actorIRI : Iri) (activityActors : List J) : Prog Unit := do
+  let t ← Op.get followIRI
+  let t ← needVal "accept: IsOrExtends on nil value" t
+  if !F.isOrExt "Follow" (typeName t) then Prog.fail .lib else do
+    let actors ← needProp F "accept: actors.Begin() on nil actor property of the stored Follow" t "actor"
+    let me ← (if actors.isEmpty then pure actorIRI else strOf "accept: actorIRI.String() on nil" actorIRI)
+    let ok ← findMe F "accept: id.String() on nil" actors me
+    if !ok then Prog.fail .lib else do
+      let acceptIds ← idsM F activityActors
+      let acceptIds ← strsOf "accept: id.String() on nil" acceptIds
+      let followObj ← needProp F "accept: followObj.Begin() on nil object property of the stored Follow" t "object"
+      let objIds ← idsM F followObj
+      let objIds ← strsOf "accept: id.String() on nil" objIds
+      if acceptIds.all objIds.contains then pure () else Prog.fail .lib
+
+def acceptNonEmptyActors (F : TFacts) (a : J) : Prog (List J) :=
+  match prop F a "actor" with
+  | none => Prog.fail .lib
+  | some [] => Prog.fail .lib
+  | some xs => pure xs
+
+def acceptUpdateFollowing (F : TFacts) (actorIRI : Iri) (activityActors : List J) : Prog Unit :=
+  Op.locked actorIRI (do
+    let following ← Op.following actorIRI
+    let ids ← idsM F activityActors
+    Op.update (setList following "items" ((ids.map iriJ).reverse ++ (rawList following "items").getD [])))
+
+def acceptFollow (F : TFacts) (box : Iri) (a : J) (op : List J) : Prog Unit := do
+  let actorIRI ← Op.locked box (Op.actorForInbox box)
+  let maybe ← acceptFindFollow F box op actorIRI
+  match maybe with
+  | none => pure ()
+  | some followIRI => do
+    let activityActors ← acceptNonEmptyActors F a
+    withLock followIRI (acceptVerifyStored F followIRI actorIRI activityActors)
+    acceptUpdateFollowing F actorIRI activityActors
+
+def fedAccept (F : TFacts) (cfg : CbConfig) (box : Iri) (a : J) : Prog Unit := do
+  (match prop F a "object" with
+   | none => pure ()
+   | some [] => pure ()
+   | some op => acceptFollow F box a op)
   wrappedAfter true cfg "Accept" a
 
 def fedAdd (F : TFacts) (fed : Bool) (cfg : CbConfig) (a : J) : Prog Unit := do
@@ -229,9 +224,9 @@ def fedLike (F : TFacts) (cfg : CbConfig) (a : J) : Prog Unit := do
 
 def fedAnnounce (F : TFacts) (cfg : CbConfig) (a : J) : Prog Unit := do
   let id ← liftLib (getId F a)
-  match prop F a "object" with
-  | none => pure ()
-  | some op => op.forM (likeLoop F "shares" id)
+  (match prop F a "object" with
+   | none => pure ()
+   | some op => op.forM (likeLoop F "shares" id))
   wrappedAfter true cfg "Announce" a
 
 def fedUndo (F : TFacts) (fed : Bool) (cfg : CbConfig) (box : Iri) (a : J) : Prog Unit := do
